@@ -81,6 +81,19 @@ CLAIMED["C14"] = (CLAIMED["C14"][0], CLAIMED["C14"][1] + "; admin API part throu
 CLAIMED["C04"] = (CLAIMED["C04"][0], CLAIMED["C04"][1] + "; Pull/Worker API part: 409/FailedPrecondition mapping and idempotent answers across the simulated 2 min window",
                   CLAIMED["C04"][2] + " Pull API part: leases kept and presented later over HTTP (single and batch) and the Worker API; 204/200 iff current and unexpired, else 409, the only other success being the idempotent answer to a duplicate of an ack/nack that succeeded on this node within its TTL.",
                   "nack and dead share one idempotency key per lease in the pull API (treated as intended, DESIGN Appendix B); trusted: sim/model.go")
+CONC = " W-conc: two callers with 1-3 store calls each run concurrently on one SQLite store; every statement of the instrumented SQLiteStore functions is a scheduling point and the seeded choice list (run-length schedules; for 3 in 100 programs every single-preemption schedule) decides who proceeds; a caller waiting for the pooled connection or a mutex is recognised and left alone until it wakes. The recorded history must be linearizable with respect to the store's own sequential behaviour (same results and same final content for some order that respects program order and real-time precedence, re-executed on a fresh database)."
+for pid, extra in {
+ "C01": " With a kill or power loss at a drawn disk operation, scheduling decision, or the instant the other caller is done: calls that returned before the crash must be reflected after restart, calls in flight may or may not be.",
+ "C03": "", "C04": "", "C05": " Crashes in 3 of 10 runs; a state in which every unfinished caller waits for another is reported as a deadlock.",
+ "C12": " At max_depth 1-5 under reject and drop_oldest: admission, refusal and eviction of concurrent enqueues equal some sequential order.",
+}.items():
+    c = CLAIMED[pid]
+    CLAIMED[pid] = (c[0], c[1] + "; concurrent callers under a statement-level scheduler, linearizability against sequential re-execution", c[2] + CONC + extra, c[3])
+CLAIMED["C03"] = CLAIMED["C03"][:3] + ("store level: sequential histories on both backends, concurrent callers on SQLite (the memory backend holds one mutex for every call, so its calls are atomic); pull handlers and dispatcher workers in their own worlds; trusted: sim/model.go, the store's sequential behaviour as judged by W-store",)
+CLAIMED["C01"] = CLAIMED["C01"][:3] + ("store level (W-crash sequential with disk faults, W-conc concurrent with crashes) and node level (syscrash: ingress 202 / publish 200 against a crash at every store-call boundary and disk operation); create/delete/truncate are modelled as durable at once; trusted: sim/model.go, the VFS shim (sim/simdisk.go)",)
+CLAIMED["C12"] = CLAIMED["C12"][:3] + ("histories lifted above max_depth by operator requeue are excluded as the property says",)
+CLAIMED["C07"] = CLAIMED["C07"][:3] + ("byte-exactness itself is input generation; the simulator contributes 'across retries, redeliveries, both transports, both backends'; restart is covered for the store (C01)",)
+
 NA = {
  "C19": "config Parse/Format/Compile are pure functions of the text: no schedule, clock, I/O or fault for a simulation to decide (DESIGN.md §5)",
 }
